@@ -1,4 +1,5 @@
 import IgVerif.Model.Dispatch
+import IgVerif.Gen.C02Keywords
 /-!
 # C02 — the overload that runs is the one C++ would select
 -/
@@ -102,5 +103,97 @@ example : dispatch sub0 [fi, fd, fs, fk] [.int] = some fi ∧ dispatch sub0 [fi,
 -- a const instance is refused by a non-const parameter, whatever else is in the set
 example : dispatch sub0 [fm, fi] [.inst 0 true] = none ∧ dispatch sub0 [fm, fi] [.inst 0 false] = some fm := by decide
 example : dispatch sub0 [fii] [.int] = none ∧ dispatch sub0 [⟨[.int, .int], 1, 7⟩] [.int] = some ⟨[.int, .int], 1, 7⟩ := by decide
+
+end IgVerif.C02
+
+/-! ## the emission order produced by `RemapCompareLess` satisfies the hypothesis of
+`c02_first_viable_is_best` -/
+namespace IgVerif.C02
+open IgVerif.Dp
+
+/-- lexicographic "greater" on rank vectors (higher `get_type_sort` first) -/
+def lexGt : List Nat → List Nat → Bool
+  | [], _ => false
+  | _ :: _, [] => true
+  | x :: xs, y :: ys => if x > y then true else if x < y then false else lexGt xs ys
+
+/-- C++'s "better viable function" on the rank vectors of two overloads of equal arity: at least
+as specific in every parameter and more specific in one -/
+def pointwiseGe : List Nat → List Nat → Bool
+  | [], [] => true
+  | x :: xs, y :: ys => decide (x ≥ y) && pointwiseGe xs ys
+  | _, _ => false
+
+def someGt : List Nat → List Nat → Bool
+  | x :: xs, y :: ys => decide (x > y) || someGt xs ys
+  | _, _ => false
+
+theorem better_lexGt : ∀ (a b : List Nat), pointwiseGe a b = true → someGt a b = true → lexGt a b = true
+  | [], [], _, h => by simp [someGt] at h
+  | [], _ :: _, h, _ => by simp [pointwiseGe] at h
+  | _ :: _, [], h, _ => by simp [pointwiseGe] at h
+  | x :: xs, y :: ys, hge, hgt => by
+    simp only [pointwiseGe, Bool.and_eq_true, decide_eq_true_eq] at hge
+    simp only [someGt, Bool.or_eq_true, decide_eq_true_eq] at hgt
+    simp only [lexGt]
+    by_cases h1 : x > y
+    · simp [h1]
+    · have hxy : x = y := by omega
+      subst hxy
+      simp only [Nat.lt_irrefl, if_false]
+      rcases hgt with h | h
+      · omega
+      · exact better_lexGt xs ys hge.2 h
+
+theorem lexGt_asymm : ∀ (a b : List Nat), lexGt a b = true → lexGt b a = false
+  | [], _, h => by simp [lexGt] at h
+  | _ :: _, [], _ => by simp [lexGt]
+  | x :: xs, y :: ys, h => by
+    simp only [lexGt] at h ⊢
+    by_cases h1 : x > y
+    · have h2 : ¬ y > x := by omega
+      have h3 : y < x := h1
+      simp [h2, h3]
+    · simp only [h1, if_false] at h
+      by_cases h2 : x < y
+      · simp [h2] at h
+      · simp only [h2, if_false] at h
+        have e : x = y := by omega
+        subst e
+        simp only [Nat.lt_irrefl, if_false]
+        exact lexGt_asymm xs ys h
+
+/-- **Sorted by specificity ⇒ no better match after a worse one.** If the overloads are emitted
+in an order in which no later rank vector is lexicographically greater than an earlier one (what
+sorting with `RemapCompareLess` gives for overloads of one arity), then no later overload is a
+better match, in C++'s sense, than an earlier one: the hypothesis `hsorted` of
+`c02_first_viable_is_best` with `better a b := pointwiseGe ∧ someGt` on the rank vectors. -/
+theorem c02_rank_order_gives_hsorted (ranks : Remap → List Nat) (rs : List Remap)
+    (hs : rs.Pairwise (fun a b => lexGt (ranks b) (ranks a) = false)) :
+    rs.Pairwise (fun a b => ¬ (pointwiseGe (ranks b) (ranks a) = true ∧ someGt (ranks b) (ranks a) = true)) := by
+  refine hs.imp ?_
+  intro a b hab hbetter
+  have := better_lexGt (ranks b) (ranks a) hbetter.1 hbetter.2
+  rw [hab] at this
+  exact absurd this (by simp)
+
+end IgVerif.C02
+
+namespace IgVerif.C02
+
+/-- `keyword.kwlist` of CPython 3.11 (the check compares this list with the running interpreter's) -/
+def python3Keywords : List String :=
+  ["False", "None", "True", "and", "as", "assert", "async", "await", "break", "class", "continue", "def", "del", "elif", "else", "except",
+   "finally", "for", "from", "global", "if", "import", "in", "is", "lambda", "nonlocal", "not", "or", "pass", "raise", "return", "try", "while", "with", "yield"]
+
+/-- **Every Python keyword is renamed**: the table `checkKeyword` consults, as it stands in the
+source now, contains every keyword of Python 3, so no exported name is unusable as an attribute. -/
+theorem c02_keywords_cover : Gen.c02ExtractionFailed = false ∧ ∀ k ∈ python3Keywords, k ∈ Gen.c02PythonKeywords := by decide
+
+/-- the ranks of `get_type_sort` order the categories as C++ prefers them: an exact integer match
+before a floating-point conversion, strings and classes before numbers -/
+theorem c02_rank_facts :
+    Gen.c02TypeRanks.lookup "integer" = some 5 ∧ Gen.c02TypeRanks.lookup "double" = some 4 ∧ Gen.c02TypeRanks.lookup "float" = some 3 ∧
+    Gen.c02TypeRanks.lookup "string" = some 9 ∧ Gen.c02TypeRanks.lookup "class" = some 20 := by decide
 
 end IgVerif.C02
